@@ -1,12 +1,103 @@
-/- Driver ops for the Cmd model. Stub until the model lands. -/
+/- Driver ops for the Cmd model (C17): `cmd.serial`, `cmd.async`. -/
 import Lean.Data.Json
 import PypyrModel.Json
+import PypyrModel.Cmd
 
 namespace Pypyr.OpCmd
-open Lean (Json)
+open Lean (Json JsonNumber)
+open Pypyr.Cmd
 
-/-- Handle one request object (already parsed); `Except.error` = protocol-level reject. -/
-def handle (_op : String) (_j : Json) : Except String Json :=
-  .error "not implemented"
+def natJ (n : Nat) : Json := Json.num (JsonNumber.fromNat n)
+
+/-- Scripted output must be text on which `rstrip`, text-mode decoding and the model agree:
+    printable ASCII, space, tab, newline. Anything else is outside the modelled domain. -/
+def okText (s : String) : Bool :=
+  s.toList.all fun c => (c.toNat ≥ 32 && c.toNat < 127) || c == '\n' || c == '\t'
+
+def procOf (j : Json) : Except String Proc := do
+  let id ← jsonNat? (← j.getObjVal? "id")
+  let code ← jsonNat? (← j.getObjVal? "code")
+  let out ← (← j.getObjVal? "out").getStr?
+  let err ← (← j.getObjVal? "err").getStr?
+  if code > 255 then throw "exit code > 255 is outside the modelled domain"
+  if !(okText out && okText err) then throw "scripted output outside the modelled domain (ASCII text)"
+  pure ⟨id, code, out, err⟩
+
+def procsOf (j : Json) : Except String (List Proc) := do
+  (← j.getArr?).toList.mapM procOf
+
+def boolOf (j : Json) (k : String) : Except String Bool := do
+  match ← j.getObjVal? k with
+  | .bool b => pure b
+  | _ => throw s!"{k} must be a bool"
+
+def scommandOf (j : Json) : Except String SCommand := do
+  let run ← procsOf (← j.getObjVal? "run")
+  let save ← boolOf j "save"
+  let text ← boolOf j "text"
+  -- `is_text = not is_bytes if is_save else False`
+  if !save && text then throw "text without save cannot be constructed by create_command"
+  pure ⟨run, save, text⟩
+
+def entryOf (j : Json) : Except String Entry := do
+  if let .ok p := j.getObjVal? "one" then return .one (← procOf p)
+  if let .ok ps := j.getObjVal? "serial" then return .serial (← procsOf ps)
+  throw "bad entry"
+
+def acommandOf (j : Json) : Except String ACommand := do
+  let r ← j.getObjVal? "run"
+  let run ← (do
+    if let .ok p := r.getObjVal? "single" then return ARun.single (← procOf p)
+    if let .ok es := r.getObjVal? "many" then return ARun.many (← (← es.getArr?).toList.mapM entryOf)
+    throw "bad run" : Except String ARun)
+  let save ← boolOf j "save"
+  let text ← boolOf j "text"
+  if !save && text then throw "text without save cannot be constructed by create_command"
+  pure ⟨run, save, text⟩
+
+def outJ : Out → Json
+  | .none => Json.null
+  | .text s => Json.mkObj [("t", Json.str s)]
+  | .bytes s => Json.mkObj [("b", Json.str s)]
+
+def resJ (r : Result) : Json :=
+  Json.mkObj [("id", natJ r.id), ("code", natJ r.code), ("stdout", outJ r.stdout), ("stderr", outJ r.stderr)]
+
+def errJ (e : CmdErr) : Json := Json.mkObj [("id", natJ e.id), ("code", natJ e.code)]
+
+def arrJ {α} (f : α → Json) (xs : List α) : Json := Json.arr (xs.map f).toArray
+
+def slotJ : Slot → Json
+  | .res r => Json.mkObj [("res", resJ r)]
+  | .sub rs => Json.mkObj [("sub", arrJ resJ rs)]
+
+def eventJ : Event → Json
+  | .start i => Json.arr #[Json.str "s", natJ i]
+  | .fin i => Json.arr #[Json.str "f", natJ i]
+
+def handle (op : String) (j : Json) : Except String Json := do
+  match op with
+  | "serial" =>
+    let cs ← (← (← j.getObjVal? "cmds").getArr?).toList.mapM scommandOf
+    let o := runSerial cs
+    pure (Json.mkObj [
+      ("started", arrJ natJ o.started),
+      ("err", match o.err with | none => Json.null | some e => errJ e),
+      ("results", arrJ resJ o.results),
+      ("cmdOut", match o.cmdOut with
+        | .unset => Json.null
+        | .single r => Json.mkObj [("single", resJ r)]
+        | .many rs => Json.mkObj [("many", arrJ resJ rs)])])
+  | "async" =>
+    let cs ← (← (← j.getObjVal? "cmds").getArr?).toList.mapM acommandOf
+    let sched ← (← (← j.getObjVal? "sched").getArr?).toList.mapM jsonNat?
+    let o := runAsync cs sched
+    pure (Json.mkObj [
+      ("trace", arrJ eventJ o.trace),
+      ("started", arrJ natJ o.started),
+      ("errors", arrJ errJ o.errors),
+      ("lanes", natJ (lanesOf cs).length),
+      ("cmdOut", match o.cmdOut with | none => Json.null | some ss => arrJ slotJ ss)])
+  | _ => .error s!"unknown op {op}"
 
 end Pypyr.OpCmd
